@@ -93,6 +93,17 @@ func (fc *FuncCtx) codeEnv(st *State, at token.Pos) *CEnv {
 	return env
 }
 
+// nonblockingOpt: the function's own "opt nonblocking" or its package's "pkgopt nonblocking".
+func (fc *FuncCtx) nonblockingOpt() string {
+	if fc.contract != nil && fc.contract.Opts["nonblocking"] != "" {
+		return fc.contract.Opts["nonblocking"]
+	}
+	if fc.pkg != nil {
+		return fc.w.PkgOpts[fc.pkg.PkgPath]["nonblocking"]
+	}
+	return ""
+}
+
 func (w *World) verifyFunc(key string) (fc *FuncCtx) {
 	decl := w.FuncDecls[key]
 	pkg := w.FuncPkg[key]
@@ -217,6 +228,12 @@ func (w *World) verifyFunc(key string) (fc *FuncCtx) {
 	for _, want := range strings.Fields(fc.contract.Opts["countcalls"]) {
 		st.ghost["calls_"+want] = fc.fresh("calls_"+want, tInt)
 	}
+	for _, want := range strings.Fields(fc.contract.Opts["countrecvs"]) {
+		st.ghost["recvs_"+want] = fc.fresh("recvs_"+want, tInt)
+	}
+	for _, want := range strings.Fields(fc.contract.Opts["lasterr"]) {
+		st.ghost[want+"_err"] = fc.reg().Zero(types.Universe.Lookup("error").Type())
+	}
 	// event counters: one ghost counter per package-level channel the function sends on
 	ast.Inspect(decl, func(n ast.Node) bool {
 		if ss, ok := n.(*ast.SendStmt); ok {
@@ -265,6 +282,11 @@ func (w *World) verifyFunc(key string) (fc *FuncCtx) {
 			fc.fail(decl, "missing return")
 		}
 		fc.execReturn(end, &ast.ReturnStmt{Return: decl.Body.Rbrace})
+	}
+	for cl, seen := range fc.leaveSeen {
+		if !seen {
+			fc.fail(decl, "contract clause %s (%s): its variables are in scope at no return statement of the loop", cl.Src, cl.Text)
+		}
 	}
 	for ord := range fc.contract.Loops {
 		if ord > fc.loopOrd {
@@ -356,6 +378,34 @@ func (fc *FuncCtx) checkPost(st *State, vals []Term, n ast.Node) {
 			site = e.Tag
 		}
 		fc.oblige(st, "post", site+".ret"+ro, t.S, n, e.Text)
+	}
+	// leave clauses of the contracted loops this return statement is inside of
+	for k := len(fc.loopFrames) - 1; k >= 0; k-- {
+		fr := fc.loopFrames[k]
+		for i, lv := range fr.lc.Leaves {
+			lenv := fc.loopEnv(st, fr.pre, n.Pos())
+			lenv.iter = fc.codeEnv(fr.bodyStart, fr.at)
+			if lenv.old == nil {
+				lenv.old = fc.oldEnv
+			}
+			for j := range vals {
+				lenv.vars["ret"+strconv.Itoa(j+1)] = vals[j]
+			}
+			// a leave clause speaks about the returns at which its variables are in scope (at least one)
+			t, inScope := fc.cevalInScope(lenv, lv, n)
+			if fc.leaveSeen == nil {
+				fc.leaveSeen = map[*Clause]bool{}
+			}
+			fc.leaveSeen[lv] = fc.leaveSeen[lv] || inScope
+			if !inScope {
+				continue
+			}
+			site := "loop" + strconv.Itoa(fr.ord) + ".leave" + strconv.Itoa(i+1)
+			if lv.Tag != "" {
+				site = "loop" + strconv.Itoa(fr.ord) + "." + lv.Tag
+			}
+			fc.oblige(st, "step", site+".ret"+ro, t.S, n, lv.Text)
+		}
 	}
 	// frame: pointer parameters change only along the modifies paths
 	if fc.contract.Opts["noframe"] != "" {
@@ -676,3 +726,17 @@ func (fc *FuncCtx) checkAliasClauses(st *State, vals []Term, n ast.Node) {
 }
 
 var ghostErrRe = regexp.MustCompile(`\b[A-Z][A-Za-z0-9]*_err\b`)
+
+// cevalInScope evaluates a clause; ok is false when the clause names a variable that is not in scope at n.
+func (fc *FuncCtx) cevalInScope(env *CEnv, cl *Clause, n ast.Node) (t Term, ok bool) {
+	defer func() {
+		if r := recover(); r != nil {
+			if te, isT := r.(translateErr); isT && strings.Contains(string(te), "unknown identifier") {
+				ok = false
+				return
+			}
+			panic(r)
+		}
+	}()
+	return fc.cevalIn(env, cl, n), true
+}
